@@ -269,6 +269,18 @@ func decodeProp(prop string) *Prop {
 			},
 			Run: func(c *Ctx) { decodeMixed(c, prop, 3) },
 		},
+		{
+			// one token far longer than any look-ahead window (an XMP value or padding run of
+			// 70..700 KB), alone or inside a CR3 xpacket box: work and allocation stay linear
+			Name: "bigtoken", Phase: 1, Weight: 1,
+			N: func(tier string, seed uint64) uint64 {
+				if tier == "thorough" {
+					return 20000
+				}
+				return 1500
+			},
+			Run: func(c *Ctx) { decodeMixed(c, prop, 4) },
+		},
 	}
 	return p
 }
@@ -283,7 +295,7 @@ var entriesByContainer = map[string][]string{
 	"gen:HEIF":         {"Decode", "DecodeHeif", "isobmff.Reader"},
 }
 
-var bigVals = []uint64{0xffffffff, 0x7fffffff, 0x80000000, 0x10000000, 0x01000000, 0x00100000, 0xffff, 0x8000, 0, 1, 2, 7, 8}
+var bigVals = []uint64{0xffffffff, 0x7fffffff, 0x80000000, 0x10000000, 0x01000000, 0x00100000, 0xffff, 0x8000, 0, 1, 2, 7, 8, 0xfffffff4, 0xfffffff8, 0xfffffff0, 0xfffffffc}
 
 // sizeFlip sets one size/count/length field of the layout map to a large or stalling value.
 func sizeFlip(l, x *core.Lane, data []byte, fmap []gengen.FieldSpan, desc func(string, ...interface{})) []byte {
@@ -477,7 +489,28 @@ func decodeMixed(c *Ctx, prop string, class int) {
 	var e *harness.Entry
 	hi := 0
 	random := class == 1
-	if class == 3 {
+	if class == 4 {
+		n := 70000 + gen.Intn(630000)
+		val := strings.Repeat("A", n)
+		var pkt string
+		switch gen.Intn(3) {
+		case 0:
+			pkt = "<x:xmpmeta xmlns:x='adobe:ns:meta/'><rdf:RDF xmlns:rdf='http://www.w3.org/1999/02/22-rdf-syntax-ns#'><rdf:Description rdf:about='' xmlns:dc='http://purl.org/dc/elements/1.1/'><dc:description><rdf:Alt><rdf:li xml:lang='x-default'>" + val + "</rdf:li></rdf:Alt></dc:description></rdf:Description></rdf:RDF></x:xmpmeta>"
+		case 1:
+			pkt = "<x:xmpmeta xmlns:x='adobe:ns:meta/'><rdf:RDF xmlns:rdf='http://www.w3.org/1999/02/22-rdf-syntax-ns#'><rdf:Description rdf:about='' xmlns:tiff='http://ns.adobe.com/tiff/1.0/' tiff:Make='" + val + "'/></rdf:RDF></x:xmpmeta>"
+		default:
+			pkt = "<x:xmpmeta xmlns:x='adobe:ns:meta/'>" + strings.Repeat(" ", n) + "<rdf:RDF xmlns:rdf='http://www.w3.org/1999/02/22-rdf-syntax-ns#'><rdf:Description rdf:about='' xmlns:tiff='http://ns.adobe.com/tiff/1.0/' tiff:Make='x'/></rdf:RDF></x:xmpmeta>"
+		}
+		if gen.Bool() {
+			var o gengen.CR3Opts
+			o.CMT[0] = gengen.BuildTIFF(gen, &gengen.Record{}, gengen.LayoutOpts{Canonical: true}).Encode(false).Bytes
+			o.XMP = []byte(pkt)
+			data, name, e = gengen.DrawCR3(gen, o).Bytes, "gen:CR3+bigxmp", harness.EntryByName("isobmff.Reader")
+		} else {
+			data, name, e = []byte(pkt), "bigxmp", harness.EntryByName("xmp.ParseXmp")
+		}
+		hi = len(data)
+	} else if class == 3 {
 		var fmap []gengen.FieldSpan
 		data, name, fmap = generatedInput(c, gen)
 		names := entriesByContainer[name]
